@@ -3,8 +3,11 @@ package props
 import (
 	"encoding/json"
 	"fmt"
+	"math"
+	"math/big"
 	"math/rand/v2"
 	"reflect"
+	"strings"
 
 	"github.com/google/jsonschema-go/jsonschema"
 
@@ -50,6 +53,23 @@ func nearMiss(r *rand.Rand, v any, depth int) any {
 	case bool:
 		return gen.Pick(r, []any{!x, nil, json.Number("1"), json.Number("0"), fmt.Sprint(x)})
 	case json.Number:
+		if rt, ok := new(big.Rat).SetString(string(x)); ok && r.IntN(4) == 0 {
+			// relatives by the classic artefacts: the other sign (two's complement: -2^63 vs 2^63), a wrap-around by 2^64 / 2^32,
+			// and - for a value no float64 holds exactly - the float64 NEAREST to it, spelled exactly (0.1 vs
+			// 0.1000000000000000055511151231257827...)
+			switch r.IntN(4) {
+			case 0:
+				return ratNumber(new(big.Rat).Neg(rt))
+			case 1:
+				return ratNumber(new(big.Rat).Add(rt, new(big.Rat).SetInt(new(big.Int).Lsh(big.NewInt(1), 64))))
+			case 2:
+				return ratNumber(new(big.Rat).Sub(rt, new(big.Rat).SetInt(new(big.Int).Lsh(big.NewInt(1), 32))))
+			default:
+				if f, exact := rt.Float64(); !exact && !math.IsInf(f, 0) {
+					return ratNumber(new(big.Rat).SetFloat64(f))
+				}
+			}
+		}
 		switch r.IntN(5) {
 		case 0:
 			return string(x) // number vs numeric string
@@ -329,4 +349,16 @@ func allEmpty(l []any) bool {
 		}
 	}
 	return len(l) > 0
+}
+
+// ratNumber spells an exact rational with a terminating decimal expansion as a json.Number (falls back to a fraction-free
+// approximation never: returns the original spelling of the numerator when the expansion does not terminate within 1100 digits).
+func ratNumber(v *big.Rat) json.Number {
+	if v.IsInt() {
+		return json.Number(v.Num().String())
+	}
+	s := v.FloatString(1100)
+	s = strings.TrimRight(s, "0")
+	s = strings.TrimSuffix(s, ".")
+	return json.Number(s)
 }
